@@ -629,6 +629,10 @@ func lexBegin(l *lexer) stateFunc {
 				return l.acceptEndOfStatement()
 			}
 		}
+		if l.quoteFollows() && l.acceptToken(token_string) {
+			// "current" is as good as current
+			return l.acceptEndOfStatement()
+		}
 		return l.error("unexpected token after status")
 	}
 
@@ -658,7 +662,7 @@ func lexBegin(l *lexer) stateFunc {
 	}
 	for _, ttype := range types {
 		if l.acceptToken(ttype) {
-			if !l.acceptToken(kywd_true) && !l.acceptToken(kywd_false) {
+			if !l.acceptToken(kywd_true) && !l.acceptToken(kywd_false) && !(l.quoteFollows() && l.acceptToken(token_string)) {
 				return l.error("expecting true or false")
 			}
 			return l.acceptEndOfStatement()
@@ -715,6 +719,9 @@ func lexBegin(l *lexer) stateFunc {
 			if l.acceptToken(ttype) {
 				return l.acceptEndOfStatement()
 			}
+		}
+		if l.quoteFollows() && l.acceptToken(token_string) {
+			return l.acceptEndOfStatement()
 		}
 		return l.error("unexpected order-by type")
 	}
@@ -796,6 +803,21 @@ func (l *lexer) numberIsWholeArgument() bool {
 		}
 	}
 	return i > l.pos && (i == len(l.input) || isStringDelim(rune(l.input[i])))
+}
+
+// quoteFollows is true when the next token starts with a quote. every argument
+// of YANG is a string and may be written in quotes, keywords and numbers too
+func (l *lexer) quoteFollows() bool {
+	for i := l.pos; i < len(l.input); i++ {
+		switch l.input[i] {
+		case ' ', '\t', '\n', '\r':
+			continue
+		case char_doublequote, char_singlequote:
+			return true
+		}
+		return false
+	}
+	return false
 }
 
 func (l *lexer) acceptEndOfStatement() stateFunc {
